@@ -171,6 +171,20 @@ theorem bosonic_state_modes_sorted (nlen : Nat) (modes : List Nat) (hd : modes.N
     bosonicBackendState nlen modes = .ok (modes.length, interleaved (modes.mergeSort fun a b => decide (a ≤ b))) :=
   bosonicBackendState_sorted nlen modes hd hr
 
+/-- **bosonic `displacement(modes)`** (after the `fix:` commit) answers in the order requested: entries `2a, 2a+1` of the
+selection are `x, p` of `modes[a]` -/
+theorem bosonic_displacement_order (modes : List Nat) (a : Nat) (ha : a < modes.length) :
+    (bosonicDisplacementInd modes).getD (2 * a) 0 = 2 * at' modes a ∧
+    (bosonicDisplacementInd modes).getD (2 * a + 1) 0 = 2 * at' modes a + 1 :=
+  interleaved_getD modes a ha
+
+/-- before the fix the selection was sorted: `displacement([1, 0])` answered for `[0, 1]` -/
+theorem bosonic_displacement_counterexample :
+    (bosonicDisplacementIndOld [1, 0]).getD 0 0 ≠ 2 * at' [1, 0] 0 := by
+  have h := bosonicInd_eq [1, 0] (by decide)
+  have hs : ([1, 0] : List Nat).mergeSort (fun a b => decide (a ≤ b)) = [0, 1] := by simp [List.mergeSort]
+  simp [bosonicDisplacementIndOld, h, hs, interleaved, at']
+
 /-- **bosonic `reduced_dm` / `fock_prob`** (after the `fix:` commit): after `xpxp_to_xxpp` thewalrus receives `x` of
 `modes[a]` at index `a` and `p` of `modes[a]` at index `a + k` -/
 theorem bosonic_walrus_order (modes : List Nat) (a : Nat) (ha : a < modes.length) :
